@@ -278,6 +278,10 @@ class ConvexPolyhedron(GeoBody):
             )
         if not self._check_normal():
             raise ValueError("Check Normal Fails For The Convex Polyhedron")
+        if not self._edge_check():
+            raise ValueError(
+                "Every edge must belong to exactly two faces, the polyhedron may not be closed"
+            )
         if not self._euler_check():
             get_main_logger().critical(
                 "V:{} E:{} F:{}".format(
@@ -295,6 +299,14 @@ class ConvexPolyhedron(GeoBody):
         number_segments = len(self.segment_set)
         number_polygons = len(self.convex_polygons)
         return number_points - number_segments + number_polygons == 2
+
+    def _edge_check(self):
+        """return True if every edge is shared by exactly two polygons"""
+        segment_count = dict()
+        for convex_polygon in self.convex_polygons:
+            for segment in convex_polygon.segments():
+                segment_count[segment] = segment_count.get(segment, 0) + 1
+        return all(count == 2 for count in segment_count.values())
 
     def _check_normal(self):
         """return True if all the polygons' normals point to the outside"""
